@@ -79,7 +79,8 @@ class _UuidShim:
 
 
 HIGH_WATER = 16 * 1024     # write-buffer high-water mark of the in-memory transport
-CALL_KINDS = {"call": None, "bigcall": 70000, "hugecall": 300000}   # kind -> extra request payload
+CALL_KINDS = {"call": None, "bigcall": 70000, "hugecall": 300000,   # kind -> extra request payload
+              "failcall": None, "badresult": None}      # (server mode) evaluation raises / result unpicklable
 
 
 class FakeWriter:
@@ -100,6 +101,8 @@ class FakeWriter:
         if self.h.congested:
             self.buffered += len(data)
         self.h.on_write(data)
+        if self.h.duplex and not self.h.server_reader._eof:
+            self.h.server_reader.feed_data(data)        # the wire to the real server side
 
     async def drain(self):
         if not self.h.wr_broken and self.h.congested and self.buffered > HIGH_WATER:
@@ -128,6 +131,55 @@ class FakeWriter:
 
     def get_extra_info(self, name, default=None):
         return ("mem", 0) if name == "peername" else default
+
+
+class ServerWriter:
+    """the server's end of the in-memory connection: what the real server-side NetworkClient
+    writes is fed to the client's reader, closing it is EOF for the client"""
+
+    def __init__(self, h):
+        self.h = h
+        self.closing = False
+
+    def write(self, data):
+        self.h.server_write(bytes(data))
+
+    async def drain(self):
+        return None
+
+    def is_closing(self):
+        return self.closing
+
+    def close(self):
+        if not self.closing:
+            self.closing = True
+            self.h.server_close()
+
+    async def wait_closed(self):
+        return None
+
+    def get_extra_info(self, name, default=None):
+        return ("mem", 1) if name == "peername" else default
+
+
+class _ServerKlong:
+    """interpreter of the server side: evaluates request texts; `boom…` raises, `lam…` returns a
+    value that cannot be pickled"""
+
+    def __init__(self):
+        self._context = {}
+
+    def __getitem__(self, k):
+        if str(k).startswith(".srv."):
+            return None
+        raise KeyError(k)
+
+    def __call__(self, text):
+        if text.startswith("boom"):
+            raise KeyError(text)
+        if text.startswith("lam"):
+            return lambda: None
+        return "echo:" + text
 
 
 def make_provider(ipc, h, reader, writer):
@@ -243,7 +295,7 @@ class Caller:
 class Harness:
     K_UNKNOWN = 100
 
-    def __init__(self, kinds, values, stream, fail_values=()):
+    def __init__(self, kinds, values, stream, fail_values=(), server=False):
         """kinds: caller kinds; values: list of python values usable as bodies;
         stream: list of (id:int, body:'close'|int index into values) making the inbound byte string"""
         import klongpy.sys_fn_ipc as ipc
@@ -255,6 +307,10 @@ class Harness:
         self.checkpoints = []       # (index into labels, real digest)
         self.notes = []             # harness-level anomalies (tie problems, not property failures)
         self.wr_broken = False
+        self.duplex = bool(server)  # a real server-side NetworkClient answers instead of a stream
+        self.server_closed = False
+        self.unanswered_blocked = []
+        self.srv_parse = 0
         self.congested = False
         self.vtime = 1000.0
         self.poisoned = False
@@ -310,6 +366,16 @@ class Harness:
         self.saved_uuid = ipc.uuid
         ipc.uuid = _UuidShim(self)
         self.run_task = self.loop.create_task(self.nc.run_server())
+        if self.duplex:
+            # the real server chain: TcpServerHandler.handle_client -> TcpServerConnectionHandler
+            # .handle_client -> NetworkClient.run_server()/_run over the other end of the wire
+            self.server_reader = asyncio.StreamReader(loop=self.loop)
+            self.server_writer = ServerWriter(self)
+            self.tcp = ipc.TcpServerHandler()
+            self.tcp.connection_handler = ipc.TcpServerConnectionHandler(
+                self.loop, _FakeKlongLoop(self.loop), _ServerKlong())
+            self.server_task = self.loop.create_task(
+                self.tcp.handle_client(self.server_reader, self.server_writer))
         self.iterate()
         self.iterate()
         if self.nc.writer is not self.writer:
@@ -468,7 +534,29 @@ class Harness:
                 self.cv.notify_all()
 
     def request_of(self, c):
+        if self.duplex:
+            return {"failcall": "boom", "badresult": "lam"}.get(c.kind, "expr") + str(c.k)
         return ("req", c.k) if c.payload is None else ("req", c.k, "q" * c.payload)
+
+    # ------------------------------------------------------------------ server end of the wire
+    def server_write(self, data):
+        if self.reader._eof:
+            return
+        a = len(self.stream)
+        self.stream += data
+        while len(self.stream) - self.srv_parse >= 20:
+            s = self.srv_parse
+            n = struct.unpack("!I", self.stream[s + 16:s + 20])[0]
+            if len(self.stream) - s < 20 + n:
+                break
+            self.frames.append((int.from_bytes(self.stream[s:s + 16], "big"), self.stream[s + 20:s + 20 + n],
+                                s, s + 20 + n))
+            self.srv_parse = s + 20 + n
+        self.apply(["F", a, len(self.stream)], nested=True)
+
+    def server_close(self):
+        self.server_closed = True
+        self.apply(["EOF"], nested=True)
 
     def _wait(self, pred, where):
         with self.cv:
@@ -787,6 +875,12 @@ class Harness:
         if self.congested or self.writer.waiters:
             self.apply(["UNCONGEST"])
             self._complete()
+        if self.duplex and self.listener_state() == "listening" and not self.wr_broken \
+                and not self.reader._eof and self.loop_idle():
+            # the real server has read everything and has nothing left to do, the connection is
+            # open: a call still waiting for its answer will never get one and never be failed
+            self.unanswered_blocked = [c.k for c in self.callers
+                                       if c.submitted and not c.finished and c.hphase == "waiting"]
         if self.listener_state() == "listening" and not self.wr_broken and self.loop_idle():
             # healthy connection, nothing left to run: a caller blocked in result() whose request
             # was never handed to the writer can never be answered
